@@ -288,7 +288,8 @@ func New(ctx context.Context, schema Schema, opts *Opts) *Machine {
 			m.semLogger.SetLevel(opts.LogLevel)
 		}
 		if opts.Tracers != nil {
-			m.tracers = opts.Tracers
+			// the machine's own list (Opts may be reused for other machines)
+			m.tracers = slices.Clone(opts.Tracers)
 		}
 		if opts.LogArgs != nil {
 			m.logArgs.Store(&opts.LogArgs)
